@@ -622,6 +622,10 @@ def threaded_successors(body):
                     break
                 if any('rv' in s for s in body.blocks[nxt]['s']):
                     break
+                # the redirection is applied to the LAST block of the chain: that block must belong to this constant's path alone — a shared join (a common
+                # drop block that other definitions of the bool flow through) would carry every path past the switch
+                if len([p_ for p_ in body.pred(nxt) if p_ in body.live_blocks()]) != 1:
+                    break
                 cur = nxt
                 hops += 1
             if not path_ok:
